@@ -105,10 +105,13 @@ def case_array(case):
                 r.close("force-moments: sample variance exactly as requested", np.var(y), v2, rtol=rt, **extra)
                 r.true("force-moments: order of the values preserved", bool(np.array_equal(np.argsort(np.ravel(y), kind="stable"), np.argsort(np.ravel(arr), kind="stable"))), **extra)
     elif fn == "boxcox":
-        for lam in (-1.0, -0.5, 0.0, 0.5, 1.0, 2.0):
+        # (also exponents that are zero up to rounding - e.g. a fitted one -: the logarithmic limit on both sides)
+        for lam in (-1.0, -0.5, 0.0, 0.5, 1.0, 2.0, 1e-10, 1e-13, -1e-12, 1e-17):
             data = np.array([0.05, 0.3, 1.0, 1.7, 4.0, 25.0])
             n = gs.normalizer.BoxCox(lmbda=lam)
-            r.close("Box-Cox transform inverts the Box-Cox normalizer", tf.array_boxcox(n.normalize(data), lmbda=lam), data, rtol=1e-9, lam=lam, **extra)
+            r.close("Box-Cox transform inverts the Box-Cox normalizer", tf.array_boxcox(n.normalize(data), lmbda=lam), data, rtol=1e-9 if abs(lam) > 1e-9 or lam == 0 else 1e-8, lam=lam, **extra)
+            if 0 < abs(lam) < 1e-9:
+                r.close("Box-Cox transform with an exponent of rounding size == exponential", tf.array_boxcox(np.log(data), lmbda=lam), data, rtol=1e-8, lam=lam, **extra)
             for sh in (0.5, -0.02):
                 ns = gs.normalizer.BoxCoxShift(lmbda=lam, shift=sh)
                 # y = ((x+s)^l-1)/l  ->  x + s = (l y + 1)^(1/l): the transform's shift is applied to y first
